@@ -1059,4 +1059,4 @@ def replay(run, data) -> None:
 
 
 # (kept at the end of the file so that the text above stays the description the check was first built to)
-RULE += ' ' + 'Later additions: Particle.export() given a list / tuple / one-shot iterator / dict view; shader names that need quoting; the value that was read back is edited through its public attributes, written and read again (cmdseq, soundscripts, VMT, SMD).'
+RULE += ' ' + 'Later additions: Particle.export() given a list / tuple / one-shot iterator / dict view; shader names that need quoting; the value that was read back is edited through its public attributes, written and read again (cmdseq, soundscripts, VMT, SMD). SMD vertex normals are not always unit vectors (components up to 1000 with six decimals).'
